@@ -158,7 +158,11 @@ class Peer:
             else:
                 tok = "%s-%d" % (self.nick, self.n)
             self.own_tokens[tok] = now
-            self.c.send("PING :" + tok)
+            if self.n % 4 == 1 and tok and not any(ch.isspace() for ch in tok) and not tok.startswith(":"):
+                # the token is the first parameter; a second one (a server name, some words) does not replace it
+                self.c.send("PING %s %s" % (tok, ["irc.verif.test", ":some more words", "x y"][self.n % 3]))
+            else:
+                self.c.send("PING :" + tok)
             self.next_own_ping = now + 0.9
         if self.b == "unsolicited" and now >= self.next_chat:
             self.c.send("PONG :unsolicited")
